@@ -54,6 +54,12 @@ def impl(case):
         if s == 0:
             return (404, {}, 'not found')
         # the checksum file as md5sum writes it, bare, or bare with a trailing newline
+        if s == 9 and case.get('wrongfmt') == 'nonhex':
+            # a published checksum that is not even hexadecimal (another tool's output format): a mismatch
+            return (200, {}, 'MD5(data.bin)= ' + md5[1] + '\n')
+        if case.get('sumfmt') == 'latin1_name':
+            # md5sum line whose file name is not valid UTF-8
+            return (200, {'Content-Type': 'text/plain'}, md5[s].encode() + b'  donn\xe9es.bin\n')
         tail = {'name': '  data.bin\n', 'bare': '', 'bare_nl': '\n', 'bare_crlf': '\r\n'}[
             case.get('sumfmt') or ('name' if case.get('with_name', True) else 'bare')]
         return (200, {}, md5[s] + tail)
@@ -180,7 +186,8 @@ def gen(tier, rng):
                             continue
                         k += 1
                         yield dict(p=PID, prior=prior, ds=list(ds), ss=list(ss), head=HEADS[k % 7],
-                                   pathkind=['path', 'str'][(k // 7) % 2], sumfmt=['name', 'bare', 'bare_nl', 'name', 'bare_crlf'][(k // 3) % 5])
+                                   pathkind=['path', 'str'][(k // 7) % 2], sumfmt=['name', 'bare', 'bare_nl', 'name', 'bare_crlf', 'latin1_name'][(k // 3) % 6],
+                                   wrongfmt=['hex', 'nonhex'][(k // 5) % 2])
                         if not q and ld <= 3:
                             yield dict(p=PID, prior=prior, ds=list(ds), ss=list(ss), head=HEADS[(k + 3) % 7])
     for body in ('empty', 'one', 'big'):
